@@ -145,11 +145,18 @@ func EvalBool(t *pt.Term, w *World) (bool, error) {
 
 // Terminal is an expected or observed exit.
 type Terminal struct {
-	Kind    string   // "return" | "panic"
-	Results []string // canonical result terms; "*" matches anything
+	Kind    string            // "return" | "panic"
+	Results []string          // canonical result terms; "*" matches anything
+	Finals  map[string]string // expected final content of written parameter objects (P<i>), optional
 }
 
-func (t Terminal) String() string { return t.Kind + " " + strings.Join(t.Results, ", ") }
+func (t Terminal) String() string {
+	s := t.Kind + " " + strings.Join(t.Results, ", ")
+	for k, v := range t.Finals {
+		s += " [" + k + " := " + v + "]"
+	}
+	return s
+}
 
 // Match compares an observed path exit with the expectation.
 func (t Terminal) Match(p *pt.Path) bool {
@@ -158,6 +165,18 @@ func (t Terminal) Match(p *pt.Path) bool {
 	}
 	if t.Kind == "panic" {
 		return true
+	}
+	for k, v := range t.Finals {
+		got, ok := p.Finals[k]
+		if v == "" {
+			if ok {
+				return false // must not be written
+			}
+			continue
+		}
+		if !ok || got.String() != v {
+			return false
+		}
 	}
 	if len(t.Results) != len(p.Results) {
 		return false
@@ -264,6 +283,9 @@ func Compare(paths []*pt.Path, worlds []World, expect func(w *World) Terminal, p
 				var rs []string
 				for _, r := range p.Results {
 					rs = append(rs, r.String())
+				}
+				for k, v := range p.Finals {
+					rs = append(rs, "["+k+" := "+v.String()+"]")
 				}
 				add(Mismatch{World: w.Desc, Kind: "wrong-terminal", Expected: exp.String(), Got: p.Kind + " " + strings.Join(rs, ", "), Pos: posOf(p, -1)})
 				break
